@@ -67,6 +67,7 @@ ITEMS = [
     Type(ERR, 'mod evaluation_errors > enum IntegerOverflowError'),
     Type(ERR, 'mod evaluation_errors > struct BinaryOpOverflowError'),
     Type(ERR, 'mod evaluation_errors > struct UnaryOpOverflowError'),
+    Raw(file='../_eval/set_spec.rs', tag='spec'),
     Raw(file='../_eval/sem_ops.rs', tag='spec'),
     Raw(file='spec.rs', tag='spec'),
     Raw(file='lemmas.rs', tag='spec'),
